@@ -24,6 +24,7 @@ type dItem struct {
 	Msg  string           // what differs
 	F    *model.FieldInfo // the field
 	InUL bool             // at or below an unkeyed list
+	InWK bool             // at or below a keyed list whose key is a wrapper union (a pointer in Go)
 	A, B *model.Node      // owning nodes on both sides (may be nil)
 }
 
@@ -40,7 +41,7 @@ func (o dOpts) ulSet(p string) bool { return o.ULSet != nil && (o.ULSet["*"] || 
 
 func treeDiff(a, b *model.Node, o dOpts) []dItem {
 	var out []dItem
-	diffNode("", a, b, o, false, &out)
+	diffNode("", a, b, o, false, false, &out)
 	return out
 }
 
@@ -69,10 +70,22 @@ func keysOf(l []*model.Entry) []string {
 	return out
 }
 
-func diffNode(p string, a, b *model.Node, o dOpts, inUL bool, out *[]dItem) {
+func wrapperUnionKey(f *model.FieldInfo) bool {
+	if (f.Kind != model.FList && f.Kind != model.FOrdList) || !f.Owner.V.Wrapper {
+		return false
+	}
+	for _, kf := range f.KeyFields {
+		if kf.ElemUnion {
+			return true
+		}
+	}
+	return false
+}
+
+func diffNode(p string, a, b *model.Node, o dOpts, inUL, inWK bool, out *[]dItem) {
 	if a == nil || b == nil {
 		if a != b {
-			*out = append(*out, dItem{Path: p, Msg: fmt.Sprintf("node present a=%v b=%v", a != nil, b != nil), InUL: inUL, A: a, B: b})
+			*out = append(*out, dItem{Path: p, Msg: fmt.Sprintf("node present a=%v b=%v", a != nil, b != nil), InUL: inUL, InWK: inWK, A: a, B: b})
 		}
 		return
 	}
@@ -80,7 +93,7 @@ func diffNode(p string, a, b *model.Node, o dOpts, inUL bool, out *[]dItem) {
 		name := f.Name
 		fp := fieldPath(p, f)
 		add := func(format string, x ...interface{}) {
-			*out = append(*out, dItem{Path: fp, Msg: fmt.Sprintf(format, x...), F: f, InUL: inUL || f.Kind == model.FUList, A: a, B: b})
+			*out = append(*out, dItem{Path: fp, Msg: fmt.Sprintf(format, x...), F: f, InUL: inUL || f.Kind == model.FUList, InWK: inWK || wrapperUnionKey(f), A: a, B: b})
 		}
 		switch f.Kind {
 		case model.FLeaf:
@@ -108,7 +121,7 @@ func diffNode(p string, a, b *model.Node, o dOpts, inUL bool, out *[]dItem) {
 				continue
 			}
 			if oka {
-				diffNode(fp, ca, cb, o, inUL, out)
+				diffNode(fp, ca, cb, o, inUL, inWK, out)
 			}
 		case model.FList, model.FOrdList:
 			la, lb := a.List[name], b.List[name]
@@ -121,7 +134,7 @@ func diffNode(p string, a, b *model.Node, o dOpts, inUL bool, out *[]dItem) {
 				continue
 			}
 			for i := range la {
-				diffNode(entryPath(fp, la[i].Key), la[i].N, lb[i].N, o, inUL, out)
+				diffNode(entryPath(fp, la[i].Key), la[i].N, lb[i].N, o, inUL, inWK || wrapperUnionKey(f), out)
 			}
 		case model.FUList:
 			la, lb := a.UList[name], b.UList[name]
@@ -133,7 +146,7 @@ func diffNode(p string, a, b *model.Node, o dOpts, inUL bool, out *[]dItem) {
 				continue
 			}
 			for i := range la {
-				diffNode(fmt.Sprintf("%s[#%d]", fp, i), la[i], lb[i], o, true, out)
+				diffNode(fmt.Sprintf("%s[#%d]", fp, i), la[i], lb[i], o, true, inWK, out)
 			}
 		}
 	}
